@@ -15,6 +15,11 @@ func newErrorListener() *errorListener {
 	}
 }
 
+// ReportAmbiguity is a diagnostic, not a syntax error: the parser resolves the
+// ambiguity itself (lowest alternative), e.g. NOT (a AND b) or RETURN DISTINCT (x).
+func (d *errorListener) ReportAmbiguity(_ antlr.Parser, _ *antlr.DFA, _, _ int, _ bool, _ *antlr.BitSet, _ antlr.ATNConfigSet) {
+}
+
 func (d *errorListener) ReportAttemptingFullContext(_ antlr.Parser, _ *antlr.DFA, _, _ int, _ *antlr.BitSet, _ antlr.ATNConfigSet) {
 }
 
